@@ -809,23 +809,25 @@ func c16driver(ctx *hlib.Ctx) {
 	IN := func(p, h int, nb ...int) c16op { return c16op{k: kEvIncoming, p: p, h: h, nbrs: nb} }
 	emit(c16cfg{max: 3, mutual: 1, dur: 10}, c16drain([]c16op{A(0, 0), A(1, 0), IN(2, 0, 0), DP(2, 0), IN(2, 0, 0, 1), IN(2, 0, 3, 4), IN(2, 0), IN(3, 0), IN(0, 3), IN(1, 2, 0), IN(0, 0)}, 5, 4), true, "seed-incoming-handshake")
 
-	// ---- thorough: every history of length <= 4 over a small alphabet (validates R; not the proof)
+	// ---- thorough: every history of length <= 3 over a 10-operation alphabet and every history of
+	// length 4 over the 7 connection-state operations (validates R; not the proof)
 	if ctx.Tier == "thorough" {
 		alpha := []c16op{A(0, 0), A(1, 0), DP(0, 0), M(0, 0, 0), M(1, 0, 0), DA(0, 0, 0), DA(1, 0, 0), BL(0, 0), T(5), A(1, 0, 0)}
 		c1 := c16cfg{max: 1, mutual: 1, dur: 5}
-		var rec func(prefix []c16op, depth int)
-		rec = func(prefix []c16op, depth int) {
-			if len(prefix) > 0 {
+		var rec func(al, prefix []c16op, depth, minLen int)
+		rec = func(al, prefix []c16op, depth, minLen int) {
+			if len(prefix) >= minLen {
 				emit(c1, c16drain(append([]c16op{}, prefix...), 2, 1), false, "exhaustive")
 			}
 			if depth == 0 {
 				return
 			}
-			for _, a := range alpha {
-				rec(append(prefix, a), depth-1)
+			for _, a := range al {
+				rec(al, append(prefix, a), depth-1, minLen)
 			}
 		}
-		rec(nil, 4)
+		rec(alpha, nil, 3, 1)
+		rec(alpha[:7], nil, 4, 4)
 	}
 
 	// ---- random histories
